@@ -27,6 +27,7 @@ GEN = os.path.join(ROOT, "spec", "gen")
 BUILD = os.environ.get("VERIF_BUILD_DIR", os.path.join(ROOT, "build"))
 OUT = os.environ.get("VERIF_OUT_DIR", os.path.join(ROOT, "out"))
 KNOWN = os.path.join(ROOT, "known_findings.json")
+PAR = int(os.environ.get("VERIF_PAR", "16"))  # parallelism (TLC workers / parallel validation processes)
 
 
 def log(*a):
@@ -134,7 +135,7 @@ def run_one(binary, scen, seed, outdir, extra_env=None):
 def run_traces(binary, scen, seeds, outdir):
     os.makedirs(outdir, exist_ok=True)
     res = []
-    with cf.ThreadPoolExecutor(max_workers=16) as ex:
+    with cf.ThreadPoolExecutor(max_workers=PAR) as ex:
         futs = [ex.submit(run_one, binary, scen, s, outdir) for s in seeds]
         for f in futs:
             res.append(f.result())
@@ -164,7 +165,8 @@ def prefilter(evs):
 
 
 # ----------------------------------------------------------------- TLC exhaustive
-def tlc_exhaustive(scen, workers=16, timeout=1500, liveness=False):
+def tlc_exhaustive(scen, workers=None, timeout=1500, liveness=False):
+    workers = workers or PAR
     name = scen["name"]
     cfg = f"MCL_{name}.cfg" if liveness else f"MC_{name}.cfg"
     extra = ["-coverage", "1"] if scen.get("coverage") else []
@@ -305,7 +307,7 @@ def check_property(prop, tier, seed0):
             accepted_total = 0
             for i in range(0, len(traces), chunk):
                 part = traces[i:i + chunk]
-                acc, out, st = tracecheck.validate(sname, part, workers=16, timeout=3000)
+                acc, out, st = tracecheck.validate(sname, part, workers=PAR, timeout=3000)
                 if st.get("error") and not st.get("violated"):
                     log(st["error"])
                     raise Infra(f"TLC trace validation failed for {sname}")
